@@ -5,6 +5,38 @@ package skiplist
 
 import "unsafe"
 
+const (
+	vpAbA1        = iota // Acquire: before the session pointer is loaded
+	vpAbA2               // Acquire: before the live count is incremented
+	vpAbR1               // Release: before the live count is decremented
+	vpAbR2               // Release: before the closed latch is taken
+	vpAbR3               // Release: before the session is queued
+	vpAbR4               // Release: before the destructor try-lock
+	vpAbR5               // Release: before the try-lock is released
+	vpAbC1               // doCleanup: before SeekFirst
+	vpAbC2               // doCleanup: before the seqno check
+	vpAbC3               // doCleanup: destructor called, before the queue node is deleted
+	vpAbC4               // doCleanup: end of loop body, before Next
+	vpAbF0               // FlushSession: before Lock
+	vpAbF1               // FlushSession: lock held, before the session swap
+	vpAbF2               // FlushSession: before the offset is added
+	vpAbF3               // FlushSession: before Unlock
+	vpSlFindStart        // findPath: (re)start at the head
+	vpSlFindNode         // findPath: before loading the successor of curr at a level
+	vpSlHelp             // findPath: before the unlink CAS of a marked node
+	vpSlLevel            // findPath: level recorded, about to descend
+	vpSlPublish          // Insert4: before the level-0 publish CAS
+	vpSlOwnLoad          // Insert4: before loading the node's own link at an upper level
+	vpSlOwnCAS           // Insert4: before fixing the node's own link
+	vpSlPredCAS          // Insert4: before the predecessor CAS at an upper level
+	vpSlMark             // softDelete: before a mark CAS
+	vpSlDelSearch        // deleteNode: marked, before the clean-up search
+	vpSlNewLevel         // NewLevel: before the level CAS
+	vpItNext             // Iterator.Next: before loading the successor
+	vpItHelp             // Iterator.Next: current node marked, before helping
+	vpItRefresh          // Iterator.Refresh
+)
+
 // Verification yield points (see verif_on.go). Without the "verif" build tag
 // they compile to nothing.
 func verifYield(pt int, a, b unsafe.Pointer, x int) {}
